@@ -49,7 +49,7 @@ KNOWN = [  # (id, property, key regex, what fails) - still present in /repo; see
   "Independencies.closure: contraction rule sg3 accepts Y,Z strictly inside the conditioning set without Y u Z == it (from X_|_W|{A,B,C}, X_|_A|B derives X_|_{W,A}|B); the stable test test_closure pins the resulting count (78), so no correct fix passes the unedited suite"),
  ("K02","C18",r"closure:incomplete:contraction-empty-context","Independencies.closure misses contraction with empty context (X_|_Y, X_|_W|Y => X_|_{Y,W}); same line as K01, pinned by test_closure"),
  ("K03","C18",r"minimal_imap:not-an-imap","JointProbabilityDistribution.minimal_imap(['a','b']) of a dependent pair returns a graph without edges (adds no parents when no proper subset works; pairwise tests); needs a rewrite (~20 lines)"),
- ("K04","C10",r".*BDsScore\.local_score:unobserved-configs|structure_score:bds.*|.*BDsScore.*:value.*","BDsScore uses beta = ess/(r*q) instead of ess/(r*q_observed) and subtracts an extra adjustment; stable test TestBDsScore::test_score pins the current numbers"),
+ ("K04","C10",r".*BDsScore\.local_score:unobserved-(configs|child-state)|structure_score:bds.*|.*BDsScore.*:value.*","BDsScore uses beta = ess/(r*q) instead of ess/(r*q_observed) and subtracts an extra adjustment; stable test TestBDsScore::test_score pins the current numbers"),
 ]
 def main():
     head = subprocess.check_output(["git","-C","/repo","log","--format=%h","fe1f674..HEAD"]).decode().split()
